@@ -19,7 +19,9 @@ There is no rejection path (every str is accepted); the "malformed" stream is
 unterminated quotes / trailing backslash runs, compared in full.
 
 Oracle (independent of the model, on the real code): for every argument list
-`split(" ".join(quote(a) for a in args), sq) == args`; for every input string
+`split(" ".join(quote(a) for a in args), sq) == args`; non-empty words without
+quotes/whitespace (backslashes allowed) separated by arbitrary Unicode
+whitespace come back unchanged and unquoted; for every input string
 the concatenated tokens are a subsequence of the input, the characters outside
 the quoting syntax (not whitespace / allowed quote / backslash) survive in
 order, no unquoted token is empty, and split() == [t for _, t in Splitter].
@@ -44,8 +46,8 @@ input by the oracle unless noted):
 import itertools
 
 THEOREMS = [
-    "split_join_quote", "split_sublist", "split_keeps_plain", "split_total",
-    "tokens_unquoted_nonempty",
+    "tokens_join_quote", "split_join_quote", "split_unquoted_words", "split_sublist",
+    "split_keeps_plain", "tokens_unquoted_nonempty", "split_total", "splitM_join_quote",
 ]
 RULE = ("case = (single_quotes_allowed, input string) or (sq, argument list); exhaustive over "
         "{a,space,\",',\\}^<=L plus random wide-alphabet strings and random argument lists; "
@@ -136,6 +138,30 @@ def _args_oracle(ctx, cm, sq, args):
         ctx.violation(dict(kind="args", sq=sq, args=[enc(a) for a in args]),
                       "split(join(quote(args))) != args: args=%r line=%r split=%r" % (args, line, got))
     return line
+
+
+def _words_oracle(ctx, cm, sq, items, trail):
+    """unquoted words separated by arbitrary whitespace come back unchanged"""
+    line = "".join(sep + w for sep, w in items) + trail
+    words = [w for _, w in items]
+    got = list(cm.Splitter(line, single_quotes_allowed=sq))
+    if got != [(False, w) for w in words]:
+        ctx.violation(dict(kind="words", sq=sq, items=[[enc(a), enc(b)] for a, b in items], trail=enc(trail)),
+                      "unquoted words are not split back: line=%r words=%r tokens=%r" % (line, words, got))
+    return line
+
+
+def _rand_words(rng, sq):
+    alpha = WIDE_ALPHA + ("" if sq else "'")
+    items = []
+    for i in range(rng.choice((0, 1, 2, 2, 3, 4))):
+        w = []
+        for _ in range(rng.randint(1, 6)):
+            w.append(BS * rng.choice((1, 1, 2, 3)) if rng.random() < 0.3 else rng.choice(alpha))
+        sep = "".join(rng.choice(WS_CHARS) for _ in range(rng.randint(0 if i == 0 else 1, 3)))
+        items.append((sep, "".join(w)))
+    trail = "".join(rng.choice(WS_CHARS) for _ in range(rng.choice((0, 0, 1, 2))))
+    return items, trail
 
 
 def _run_strings(ctx, cm, items, tag):
@@ -241,12 +267,16 @@ def run(ctx, L=None, nrand=None, nargs=None):
         items.append((rng.random() < 0.5, s))
     _run_strings(ctx, cm, items, "rand")
 
-    # argument lists through quote -> join -> split
+    # argument lists through quote -> join -> split: all small ones first
+    # (so that a failure is reported on a small input), then random ones
+    small = ["".join(t) for n in range(4) for t in itertools.product(EXH_ALPHA, repeat=n)]
+    arglists = [(sq, [a]) for a in small for sq in (True, False)]
+    arglists += [(sq, [a, b]) for a in small[:31] for b in small[:31] for sq in (True, False)]
+    for _ in range(nargs):
+        arglists.append((rng.random() < 0.5, [_rand_arg(rng) for _ in range(rng.choice((0, 1, 1, 2, 3, 5)))]))
     cases, lines, outs = [], [], []
     str_items = []
-    for _ in range(nargs):
-        sq = rng.random() < 0.5
-        args = [_rand_arg(rng) for _ in range(rng.choice((0, 1, 1, 2, 3, 5)))]
+    for sq, args in arglists:
         line = _args_oracle(ctx, cm, sq, args)
         case = ["args", sq, [enc(a) for a in args]]
         ctx.case(case, nontrivial=any(c in "\"'\\" for a in args for c in a))
@@ -260,6 +290,27 @@ def run(ctx, L=None, nrand=None, nargs=None):
     ctx.diff(cases, lines, outs)
     _run_strings(ctx, cm, str_items, "quoted-line")
 
+    # unquoted words separated by arbitrary (Unicode) whitespace
+    str_items = []
+    wordlists = []
+    smallw = ["".join(t) for n in range(1, 4) for t in itertools.product("a\\'", repeat=n)]
+    for sep in (" ", "\t", "\u3000", "\x1f\n"):
+        for w in smallw:
+            wordlists.append((False, [("", w)], ""))
+            wordlists.append((False, [(sep, "b"), (sep, w)], sep))
+            if "'" not in w:
+                wordlists.append((True, [("", w), (sep, "b")], ""))
+    for _ in range(nargs // 2):
+        sq = rng.random() < 0.5
+        wordlists.append((sq,) + _rand_words(rng, sq))
+    for sq, items, trail in wordlists:
+        line = _words_oracle(ctx, cm, sq, items, trail)
+        ctx.case(["words", sq, [[enc(a), enc(b)] for a, b in items], enc(trail)],
+                 nontrivial=any(BS in w for _, w in items))
+        ctx.count("nwords:%d" % len(items))
+        str_items.append((sq, line))
+    _run_strings(ctx, cm, str_items, "word-line")
+
 
 def widen(ctx):
     run(ctx, L=8, nrand=60000, nargs=60000)
@@ -270,6 +321,14 @@ def replay(ctx, case):
 
     def dec(e):
         return "" if e == "_" else "".join(chr(int(x, 16)) for x in e.split("."))
+    if isinstance(case, dict) and case.get("kind") == "words":
+        sq = case["sq"]
+        items = [(dec(a), dec(b)) for a, b in case["items"]]
+        line = _words_oracle(ctx, cm, sq, items, dec(case["trail"]))
+        toks = list(cm.Splitter(line, single_quotes_allowed=sq))
+        m = ctx.model(["tok %s %s" % ("T" if sq else "F", enc(line))])
+        return dict(case=case, line=line, impl=enc_toks(toks), impl_tokens=toks, model=m[0],
+                    oracle_failures=[v["what"] for v in ctx.violations])
     if isinstance(case, dict) and case.get("kind") == "args":
         sq = case["sq"]
         args = [dec(a) for a in case["args"]]
